@@ -23,22 +23,36 @@ TECHNIQUE = ('stateful runtime monitor over the save/load pair (model of the las
              'post-conditions on all four loaders, nested calls included) with a decimal-rounding reference oracle; '
              'workload = one-shot round trips, same-path and interleaved save/load histories, sweep of 4-decimal dt')
 RULE = ('case = one block of save_/load_ calls of the real functions on 1-3 temporary paths. one-shot: a record '
-        '(1..2000 samples; classes noise/walk/quake/..., |v| 4e-7..1e20 (some to 1e300), half-way points of the 6th '
-        'decimal incl. exact dyadic ties, integers, float32, list/tuple) saved with save_signal (Signal/AccSignal) or '
-        'save_values_and_dt to a fresh path and read by every loader entry point (load_values_and_dt, load_signal '
-        'default/sig/signal/acc_sig, load_sig m, load_asig load_label x m). history: 3..6 rounds of save(different '
-        'record, length, dt, label, saver) -> loads on the SAME path, incl. same-size overwrites and re-saving the '
-        'loaded object; interleaved: the same on 2-3 paths. dt: design list, k/10000 over six decades, dt>=1 with 5-6 '
-        'significant digits, log-uniform raw in [1e-4,100], half-way points of the 4th decimal, int/float32/float64. '
-        'labels: default, spaces, digits, header look-alikes, empty, comma, #, random printable ASCII. m in '
-        '{1,2,0.5,-1,9.81,random}. sweep: save/load of every dt=k/10000 in the enumerated range. distinct = digest of '
-        '(all saved records, dt, labels, call list); long: npts in {65535, 65536, 65537, 70001, 131072, 131073, 200003} '
-        '(thorough: also 2**p and 2**p+-1 and random lengths around 2**p for p=10..18, and up to 524289 points), each '
-        'through both savers and every loader entry point; non-trivial = some saved record has a value that does not round '
-        'to 0.')
+        '(1..2000 samples incl. 2**p and 2**p+-1; classes noise/walk/quake/plateau/..., extreme at first/last sample, flat '
+        'ends, ending after a sign change; |v| 1e-12..1e20 (some to 1e300), small signal on offsets to 1e9, half-way '
+        'points of the 6th decimal incl. exact dyadic ties; float64/float32/float16, int64/int32/int16/int8/uint8/uint16/'
+        'uint32 over the full range of the type, lists/tuples of floats, of ints and mixed; strided, reversed and '
+        'read-only views, a Signal whose own array is read-only) saved with save_signal (Signal/AccSignal) or '
+        'save_values_and_dt (positional and keyword) to a fresh path and read by every loader entry point '
+        '(load_values_and_dt, load_signal default/sig/signal/acc_sig, load_sig m, load_asig load_label x m; every option '
+        'positionally and by keyword, ffp by keyword, m incl. 0, -0.0, 1, 1e-12..1e12, numpy scalar types). history: 3..6 '
+        'rounds of save(different record, length, dt, label, saver) -> loads on the SAME path, incl. same-size '
+        'overwrites, re-saving the loaded object and saving the SAME argument object (array / Signal) a second time; '
+        'interleaved: the same on 2-3 paths incl. two same-shape records on two paths read back to back. objhist: ONE '
+        'Signal object saved again and again between reset_values (same/shorter/longer), in-place edits, label changes '
+        'and cache reads, through save_signal(obj) and save_values_and_dt(obj.values, ...). dt: design list, k/10000 over '
+        'six decades, dt>=1 with 5-6 significant digits, 100 < dt <= 1000, log-uniform raw in [1e-4,1000], half-way '
+        'points of the 4th decimal incl. exact dyadic ties (odd/32), int/float32/float64; dt < 1e-4 and > 1000 are driven '
+        'but only counted. labels: default, spaces, digits, header look-alikes, empty, comma, #, random printable ASCII. '
+        'sweep: save/load of every dt=k/10000 in the enumerated range. long: npts in {65535, 65536, 65537, 70001, 131072, '
+        '131073, 200003} (thorough: also 2**p, 2**p+-1 and random lengths around 2**p for p=10..18, and up to 524289 '
+        'points), each through both savers and every loader entry point. distinct = digest of (all saved records, dt, '
+        'labels, layouts, call list); non-trivial = some saved record has a value that does not round to 0.')
 ASSUMPTIONS = ['the format holds values to 6 and dt to 4 decimals: "same to nd decimals" = the multiple of 10**-nd nearest '
                'to the saved number; within 4 ulps of a half-way point (exact ties included) either neighbour is accepted',
-               'finite real values, length >= 1, dt in [1e-4, 100], single-line str label (others counted, not judged)',
+               'finite real values, length >= 1, single-line str label; dt in [1e-4, 1000] is judged (every step the '
+               '4-decimal header represents; the quantifier names [1e-4, 100]), dt < 1e-4 (not representable) and > 1000 '
+               'are driven and counted, not judged',
+               'every load is judged against a snapshot of the values/dt/label the saver was given, taken at the entry of '
+               'the save call (never against the object later, never against derived caches)',
+               '"unchanged" also covers the caller\'s side: a save must leave its arguments bit-for-bit as they were '
+               '(clause save.leaves-arguments-unchanged) and a result handed out by a loader must not change when later '
+               'calls run (clause earlier-result-intact-after-later-call)',
                'requested type is judged exactly: Signal requested -> type is Signal (not the subclass AccSignal)',
                'the label is judged only when requested (load_asig(load_label=True))',
                'files are written and read within one process on a local temporary directory; nothing else touches them',
@@ -53,7 +67,8 @@ MIN_EVALS = {'quick': {'npts': 120000, 'dt==round4(saved)': 120000, 'values==m*r
                        'type.load_values_and_dt->(ndarray,float)': 65000, 'type.load_signal(default|sig)->Signal': 11000,
                        'type.load_signal(signal)->Signal': 10000, 'type.load_signal(acc_sig)->AccSignal': 10000,
                        'type.load_sig->Signal': 11000, 'type.load_asig->AccSignal': 14000,
-                       'history.same-path-reload': 20000, 'long-record(>65536).reload': 40},
+                       'history.same-path-reload': 20000, 'long-record(>65536).reload': 40,
+                       'save.leaves-arguments-unchanged': 50000, 'earlier-result-intact-after-later-call': 100000},
              'thorough': {'npts': 2200000, 'dt==round4(saved)': 2200000, 'values==m*round6(saved)': 2200000,
                           'dt.within-half-4th-decimal': 2200000, 'values.within-half-6th-decimal': 2200000,
                           'label==saved(load_label=True)': 200000, 'call-returns': 2000000,
@@ -61,7 +76,8 @@ MIN_EVALS = {'quick': {'npts': 120000, 'dt==round4(saved)': 120000, 'values==m*r
                           'type.load_signal(default|sig)->Signal': 200000, 'type.load_signal(signal)->Signal': 180000,
                           'type.load_signal(acc_sig)->AccSignal': 180000, 'type.load_sig->Signal': 200000,
                           'type.load_asig->AccSignal': 250000, 'history.same-path-reload': 300000,
-                          'long-record(>65536).reload': 150}}
+                          'long-record(>65536).reload': 150, 'save.leaves-arguments-unchanged': 1000000,
+                          'earlier-result-intact-after-later-call': 1500000}}
 
 CTX = None
 REG = {}        # realpath -> {'saved': op dict of the last successful save (None = unknown), 'pid': int, 'n_saves': int}
@@ -78,14 +94,56 @@ def n_shards(tier):
 
 
 # ------------------------------------------------------------------------------------------- describing calls
+BIG = 20000      # records longer than this are not written value by value into a witness
+
+
+def _layout_of(arr):
+    """Memory-layout traits of an observed array that a witness must reproduce."""
+    lay = []
+    if arr.ndim == 1 and arr.size > 1:
+        if arr.strides[0] < 0:
+            lay.append('reversed')
+        if abs(arr.strides[0]) != arr.itemsize:
+            lay.append('strided')
+    if not arr.flags.writeable:
+        lay.append('readonly')
+    return lay
+
+
+def _apply_layout(arr, lay):
+    """A view with the given traits whose logical content is arr (a fresh contiguous array)."""
+    if not lay:
+        return arr
+    v = arr
+    if arr.ndim == 1 and arr.size > 1:
+        rev = 'reversed' in lay
+        src = arr[::-1] if rev else arr
+        if 'strided' in lay:
+            base = np.zeros(2 * arr.size, dtype=arr.dtype)
+            base[::2] = src
+            v = base[::2]
+        else:
+            v = src.copy()
+        if rev:
+            v = v[::-1]
+    if 'readonly' in lay:
+        v.flags.writeable = False
+    return v
+
+
 def _describe_values(values):
+    """(snapshot array, container name, extras) of a values argument as observed at call entry."""
+    extra = {}
     if isinstance(values, np.ndarray):
-        return np.array(values), 'ndarray'
-    if isinstance(values, list):
-        return np.asarray(values), 'list'
-    if isinstance(values, tuple):
-        return np.asarray(values), 'tuple'
-    return np.asarray(values), type(values).__name__
+        lay = _layout_of(values)
+        if lay:
+            extra['layout'] = lay
+        return np.array(values), 'ndarray', extra
+    if isinstance(values, (list, tuple)):
+        if len(values) <= BIG and all(type(x) in (int, float) for x in values):
+            extra['raw'] = list(values)        # element types (Python int / float) exactly as passed
+        return np.asarray(values), ('list' if isinstance(values, list) else 'tuple'), extra
+    return np.asarray(values), type(values).__name__, extra
 
 
 def _describe_dt(dt):
@@ -100,9 +158,6 @@ def _describe_dt(dt):
     if isinstance(dt, float):
         return dt, 'float'
     return dt, type(dt).__name__
-
-
-BIG = 20000      # records longer than this are not written value by value into a witness
 
 
 def _pack(arr):
@@ -123,8 +178,10 @@ def _rebuild_values(op):
     v = op['values']
     if isinstance(v, dict) and 'packed_b64' in v:
         v = _unpack(v)
-    arr = np.asarray(v)
     c = op.get('container', 'ndarray')
+    if c in ('list', 'tuple') and op.get('raw') is not None:
+        return list(op['raw']) if c == 'list' else tuple(op['raw'])
+    arr = np.asarray(v)
     if c == 'list':
         return arr.tolist()
     if c == 'tuple':
@@ -223,29 +280,82 @@ def end_case(remove=True):
     del LOG[:]
     LOG_STATE['truncated'] = False
     _LAST.clear()
+    _LASTSAVE.clear()
+    del HELD[:]
 
 
 # ------------------------------------------------------------------------------------------- save monitors
+_LASTSAVE = {}     # monitor side: id(argument object) -> (token, object) of the outermost save calls of this block;
+                   # a witness names the objects by token so that the replay saves the SAME object where the run did
+
+
+def _token(obj):
+    t = _LASTSAVE.get(id(obj))
+    if t is None or t[1] is not obj:
+        t = (len(_LASTSAVE), obj)          # the reference keeps the object alive, so ids stay unique within the block
+        _LASTSAVE[id(obj)] = t
+    return t[0]
+
+
+def _save_values_args(args, kwargs):
+    return (args[0] if args else kwargs['ffp'], args[1] if len(args) > 1 else kwargs['values'],
+            args[2] if len(args) > 2 else kwargs['dt'], args[3] if len(args) > 3 else kwargs['label'])
+
+
 def _pre_save_values(args, kwargs):
-    ffp = args[0] if args else kwargs['ffp']
-    values = args[1] if len(args) > 1 else kwargs['values']
-    dt = args[2] if len(args) > 2 else kwargs['dt']
-    label = args[3] if len(args) > 3 else kwargs['label']
+    ffp, values, dt, label = _save_values_args(args, kwargs)
     try:
-        arr, cont = _describe_values(values)
+        arr, cont, extra = _describe_values(values)
     except Exception:
-        arr, cont = None, type(values).__name__
+        arr, cont, extra = None, type(values).__name__, {}
     dtv, dtt = _describe_dt(dt)
-    return _begin(ffp, {'op': 'save_values_and_dt', 'values': arr, 'container': cont, 'dt': dtv, 'dt_type': dtt,
-                        'label': label})
+    op = {'op': 'save_values_and_dt', 'values': arr, 'container': cont, 'dt': dtv, 'dt_type': dtt, 'label': label}
+    op.update(extra)
+    if 'ffp' in kwargs:
+        op['kw'] = True
+    if attach.STATE['depth'] == 0:
+        op['obj'] = _token(values)
+    return _begin(ffp, op)
 
 
 def _pre_save_signal(args, kwargs):
     ffp = args[0] if args else kwargs['ffp']
     sig = args[1] if len(args) > 1 else kwargs['signal']
     dtv, dtt = _describe_dt(sig.dt)
-    return _begin(ffp, {'op': 'save_signal', 'sigtype': type(sig).__name__, 'values': np.array(sig.values),
-                        'container': 'ndarray', 'dt': dtv, 'dt_type': dtt, 'label': sig.label})
+    op = {'op': 'save_signal', 'sigtype': type(sig).__name__, 'values': np.array(sig.values),
+          'container': 'ndarray', 'dt': dtv, 'dt_type': dtt, 'label': sig.label}
+    lay = _layout_of(sig.values) if isinstance(sig.values, np.ndarray) else []
+    if lay:
+        op['layout'] = lay
+    if 'ffp' in kwargs:
+        op['kw'] = True
+    if attach.STATE['depth'] == 0:
+        op['obj'] = _token(sig)
+    return _begin(ffp, op)
+
+
+def _same_bits(now, snap):
+    return (isinstance(now, np.ndarray) and now.dtype == snap.dtype and now.shape == snap.shape
+            and now.tobytes() == snap.tobytes())
+
+
+def _arguments_unchanged(op, args, kwargs):
+    """Bit-for-bit comparison of the caller's arguments after the save with the snapshot taken at call entry."""
+    try:
+        if op['op'] == 'save_signal':
+            sig = args[1] if len(args) > 1 else kwargs['signal']
+            return (_same_bits(sig.values, op['values']) and _describe_dt(sig.dt) == (op['dt'], op['dt_type'])
+                    and sig.label == op['label'] and type(sig).__name__ == op['sigtype'])
+        ffp, values, dt, label = _save_values_args(args, kwargs)
+        if isinstance(values, np.ndarray):
+            same = _same_bits(values, op['values'])
+        elif op.get('raw') is not None:
+            same = (len(values) == len(op['raw']) and all(type(a) is type(b) and a == b for a, b in zip(values, op['raw'])))
+        else:
+            same = _same_bits(np.asarray(values), op['values'])
+        return same and _describe_dt(dt) == (op['dt'], op['dt_type']) and label == op['label']
+    except Exception:
+        return False
 
 
 def _post_save(args, kwargs, result, pre):
@@ -254,6 +364,13 @@ def _post_save(args, kwargs, result, pre):
     n_saves = (prev['n_saves'] if prev else 0) + (1 if outer else 0)
     REG[key] = {'saved': dict(op), 'pid': op['pid'], 'n_saves': n_saves}
     CTX.observe('monitored-' + op['op'])
+    if op.get('values') is not None:
+        CTX.check(_arguments_unchanged(op, args, kwargs), 'save.leaves-arguments-unchanged',
+                  lambda: _witness(key, saver=op['op']),
+                  '%s changed the signal it was given (values/dt/label differ bit-for-bit from their state at call entry)'
+                  % op['op'])
+    if outer:
+        _recheck_held(key)
 
 
 def _save_failed(args, kwargs, exc, pre):
@@ -326,10 +443,11 @@ def _judge_numbers(ctx, key, loader, exp, n_got, dt_got, vals_got, m):
         ctx.violation('values==m*round6(saved)', _witness(key, loader=loader, m=m, got=repr(vals_got)[:300]),
                       '%s: loaded values are not a real 1-d series of the saved length' % loader)
         return
-    ref = exp['prim'] * mf
-    allow = 1e-12 * np.maximum(1.0, np.abs(ref))
+    with np.errstate(over='ignore', invalid='ignore'):
+        ref = exp['prim'] * mf
+        allow = 1e-12 * np.maximum(1.0, np.abs(ref))
     with np.errstate(invalid='ignore'):
-        bad = np.flatnonzero(~(np.abs(got - ref) <= allow))
+        bad = np.flatnonzero(~((np.abs(got - ref) <= allow) | (got == ref)))      # got == ref: both +-inf (overflow)
     worst = None
     for i in bad.tolist():
         a = exp['alts'].get(i)
@@ -345,10 +463,12 @@ def _judge_numbers(ctx, key, loader, exp, n_got, dt_got, vals_got, m):
               % (loader, m, worst, None if worst is None else float(exp['v'][worst]),
                  None if worst is None else float(got[worst]), None if worst is None else float(ref[worst])))
     # literal reading of the statement, independent of the rounding oracle
-    mv = exp['v'] * mf
-    lim = abs(mf) * (0.5e-6 * (1 + 1e-9) + O.TIE_ULPS * np.spacing(np.abs(exp['v']))) + 1e-12 * np.maximum(1.0, np.abs(mv))
+    with np.errstate(over='ignore', invalid='ignore'):
+        mv = exp['v'] * mf
+        lim = (abs(mf) * (0.5e-6 * (1 + 1e-9) + O.TIE_ULPS * np.spacing(np.abs(exp['v'])))
+               + 1e-12 * np.maximum(1.0, np.abs(mv)))
     with np.errstate(invalid='ignore'):
-        badl = np.flatnonzero(~(np.abs(got - mv) <= lim))
+        badl = np.flatnonzero(~((np.abs(got - mv) <= lim) | (got == mv)))
     j = int(badl[0]) if badl.size else None
     ctx.check(j is None, 'values.within-half-6th-decimal',
               lambda: _witness(key, loader=loader, m=m, index=j, got_value=float(got[j]), saved_value=float(exp['v'][j])),
@@ -371,6 +491,45 @@ def _model(key):
     return exp, e
 
 
+HELD = []       # the last results returned to the caller in this block, with a bitwise snapshot taken at return time
+
+
+def _snapshot(result):
+    import eqsig
+    if isinstance(result, tuple) and len(result) == 2 and isinstance(result[0], np.ndarray):
+        return {'kind': 'tuple', 'values': np.array(result[0]), 'dt': result[1]}
+    if isinstance(result, eqsig.Signal):
+        return {'kind': 'signal', 'values': np.array(result.values), 'dt': result.dt, 'label': result.label,
+                'npts': result.npts}
+    return None
+
+
+def _hold(key, loader, result):
+    snap = _snapshot(result)
+    if snap is None:
+        return
+    HELD.append((key, loader, result, snap))
+    if len(HELD) > 2:
+        del HELD[0]
+
+
+def _recheck_held(key_now):
+    """After a later call returned: results handed out earlier must still be what they were (no shared scratch)."""
+    for key, loader, result, snap in HELD:
+        try:
+            if snap['kind'] == 'tuple':
+                same = _same_bits(result[0], snap['values']) and result[1] == snap['dt']
+            else:
+                same = (_same_bits(result.values, snap['values']) and result.dt == snap['dt']
+                        and result.label == snap['label'] and result.npts == snap['npts'])
+        except Exception:
+            same = False
+        CTX.check(same, 'earlier-result-intact-after-later-call',
+                  lambda: _witness(key_now, earlier_loader=loader, earlier_pid=PIDS.get(key),
+                                   earlier_values_at_return=snap['values'][:50]),
+                  'the result %s returned earlier changed after a later save/load call' % loader)
+
+
 LONG_N = 65536
 
 
@@ -390,7 +549,10 @@ def _pre_load(name):
     def pre(args, kwargs):
         ffp = args[0] if args else kwargs['ffp']
         kw = {k: v for k, v in kwargs.items() if k != 'ffp'}
-        return _begin(ffp, {'op': name, 'args': list(args[1:]), 'kwargs': kw})
+        op = {'op': name, 'args': list(args[1:]), 'kwargs': kw}
+        if not args:
+            op['ffp_kw'] = True
+        return _begin(ffp, op)
     return pre
 
 
@@ -412,6 +574,8 @@ def _post_load_values_and_dt(args, kwargs, result, pre):
     _judge_numbers(ctx, key, loader, exp, len(result[0]), result[1], result[0], 1.0)
     if outer:
         _history_tick(e)
+        _recheck_held(key)
+        _hold(key, loader, result)
 
 
 def _tdesc(r):
@@ -449,6 +613,8 @@ def _judge_object(loader, clause, want_name, key, exp, e, result, m, label_reque
                   '%s: saved label %r, loaded label %r' % (loader, exp['label'], got_label))
     if outer:
         _history_tick(e)
+        _recheck_held(key)
+        _hold(key, loader, result)
 
 
 def _post_load_signal(args, kwargs, result, pre):
@@ -515,7 +681,81 @@ def install(ctx):
 
 
 # ------------------------------------------------------------------------------------------- executing one call
-_LAST = {}      # driver side: the last Signal object a loader returned in the current block
+_LAST = {}      # driver side: objects of the current block (last loaded Signal, last saved values / Signal, held object)
+
+
+def _values_object(op):
+    """The values argument of a save op; the SAME object as in the previous save when the op says so."""
+    tok = op.get('obj')
+    store = _LAST.setdefault('objs', {})
+    prev = store.get(('v', tok)) if tok is not None else (_LAST.get('values_obj') if op.get('same_object_as_prev_save') else None)
+    vals = _rebuild_values(op)
+    if prev is not None:
+        if isinstance(prev, np.ndarray) and isinstance(vals, np.ndarray) and not _same_bits(np.array(prev), vals):
+            if prev.shape == vals.shape and prev.dtype == vals.dtype and prev.flags.writeable:
+                prev[...] = vals          # the caller edited its array in place between the two saves
+                return prev
+        else:
+            return prev
+    if isinstance(vals, np.ndarray):
+        vals = _apply_layout(vals, op.get('layout'))
+    _LAST['values_obj'] = vals
+    if tok is not None:
+        store[('v', tok)] = vals
+    return vals
+
+
+def _signal_object(eqsig, op):
+    tok = op.get('obj')
+    store = _LAST.setdefault('objs', {})
+    prev = store.get(('s', tok)) if tok is not None else (_LAST.get('sig_obj') if op.get('same_object_as_prev_save') else None)
+    cls = getattr(eqsig, op['sigtype'])
+    vals, dt = _rebuild_values(op), _rebuild_dt(op)
+    if prev is not None and type(prev) is cls:
+        if not _same_bits(np.array(prev.values), np.asarray(vals)):      # the object was edited between the two saves
+            if prev.values.shape == np.shape(vals) and prev.values.dtype == np.asarray(vals).dtype and prev.values.flags.writeable:
+                prev.values[...] = vals
+            else:
+                prev.reset_values(vals)
+        if 'label' in op and prev.label != op['label']:
+            prev.label = op['label']
+        return prev
+    if isinstance(vals, np.ndarray):
+        vals = _apply_layout(vals, op.get('ctor_layout'))
+    sig = cls(vals, dt) if op.get('default_label') else cls(vals, dt, label=op['label'])
+    if 'readonly' in (op.get('layout') or []):
+        sig.values.flags.writeable = False        # the object's own array, read-only: a writer must not need to write
+    _LAST['sig_obj'] = sig
+    if tok is not None:
+        store[('s', tok)] = sig
+    return sig
+
+
+def _mutate(eqsig, ctx, op):
+    """Public mutators / cache reads on the held object between two saves (not judged here: other properties)."""
+    obj = _LAST.get('sig_obj')
+    if obj is None:
+        return
+    kind = op['kind']
+    try:
+        if kind == 'reset_values':
+            obj.reset_values(_rebuild_values(op))
+        elif kind == 'inplace':
+            for i, x in zip(op['index'], op['new']):
+                if i < len(obj.values):
+                    obj.values[i] = x
+        elif kind == 'label':
+            obj.label = op['label']
+        elif kind == 'read-cache':
+            obj.npts, obj.time, obj.dt
+            if isinstance(obj, eqsig.AccSignal) and obj.npts >= 3:
+                obj.velocity, obj.displacement
+        ctx.observe('objhist-' + kind)
+    except Exception:
+        ctx.observe('objhist-mutator-raised(%s)' % kind)
+
+
+LOADER_PARAMS = {'load_values_and_dt': [], 'load_signal': ['astype'], 'load_sig': ['m'], 'load_asig': ['load_label', 'm']}
 
 
 def execute(eqsig, ctx, op, path):
@@ -523,8 +763,12 @@ def execute(eqsig, ctx, op, path):
     violations of the statement (a saved signal must load)."""
     k = op['op']
     try:
-        if k == 'save_values_and_dt':
-            vals, dt = _rebuild_values(op), _rebuild_dt(op)
+        if k == 'save_values_and_dt' and op.get('from_held'):
+            obj = _LAST.get('sig_obj')      # the object's own array, handed out by its property, goes to the writer
+            eqsig.save_values_and_dt(path, obj.values, obj.dt, obj.label)
+            r = None
+        elif k == 'save_values_and_dt':
+            vals, dt = _values_object(op), _rebuild_dt(op)
             if op.get('kw'):
                 eqsig.save_values_and_dt(ffp=path, values=vals, dt=dt, label=op['label'])
             else:
@@ -537,45 +781,66 @@ def execute(eqsig, ctx, op, path):
                 return None
             eqsig.save_signal(path, sig)
             r = None
+        elif k == 'save_signal' and op.get('from_held'):
+            eqsig.save_signal(path, _LAST['sig_obj'])
+            r = None
         elif k == 'save_signal':
-            cls = getattr(eqsig, op['sigtype'])
-            vals, dt = _rebuild_values(op), _rebuild_dt(op)
-            if op.get('default_label'):
-                sig = cls(vals, dt)
+            sig = _signal_object(eqsig, op)
+            if op.get('kw'):
+                eqsig.save_signal(ffp=path, signal=sig)
             else:
-                sig = cls(vals, dt, label=op['label'])
-            eqsig.save_signal(path, sig)
+                eqsig.save_signal(path, sig)
             r = None
         elif k in ('load_values_and_dt', 'load_signal', 'load_sig', 'load_asig'):
-            r = getattr(eqsig, k)(path, *op.get('args', []), **op.get('kwargs', {}))
+            if op.get('ffp_kw'):     # everything by keyword (a keyword ffp cannot be followed by positional options)
+                kw = dict(op.get('kwargs', {}))
+                kw.update(zip(LOADER_PARAMS[k], op.get('args', [])))
+                r = getattr(eqsig, k)(ffp=path, **kw)
+            else:
+                r = getattr(eqsig, k)(path, *op.get('args', []), **op.get('kwargs', {}))
             if isinstance(r, eqsig.Signal):
                 _LAST['sig'] = r
+        elif k == 'new_signal':
+            _LAST.pop('sig_obj', None)
+            _signal_object(eqsig, dict(op, same_object_as_prev_save=False))
+            return None
+        elif k == 'mutate':
+            _mutate(eqsig, ctx, op)
+            return None
         else:
             raise ValueError('unknown op %r' % (k,))
     except O.OracleError:     # the reference disagrees with itself: crash the shard (inconclusive), never a verdict
         raise
     except Exception as e:   # noqa
+        if op.get('out_of_domain'):
+            ctx.observe('out-of-domain-call-raised')
+            return None
         ctx.exception('call-returns', _witness(_key(path), failed_op=k), e)
         return None
-    ctx.ok('call-returns')
+    if op.get('out_of_domain'):
+        ctx.observe('out-of-domain-call-returned')
+    else:
+        ctx.ok('call-returns')
     return r
 
 
 # ------------------------------------------------------------------------------------------- generators
-DT_LIST = [0.0001, 0.005, 0.01, 0.02, 0.5, 0.9999, 1, 1.0, 1.5, 2.5, 10, 10.0, 12, 12.0, 99.9999, 100, 100.0,
+DT_LIST = [0.0001, 0.0001, 1000, 1000.0, 0.005, 0.01, 0.02, 0.5, 0.9999, 1, 1.0, 1.5, 2.5, 10, 10.0, 12, 12.0, 99.9999, 100, 100.0,
            1.0005, 12.3456, 1.0001, 9.9999, 10.0001, 50.505, 7.0707, 3.1416, 0.1, 0.2, 0.025, 0.0025, 2, 20, 60]
 VALUE_CLASSES = ['record', 'record', 'record', 'tiny', 'halfway6', 'tie6', 'huge', 'manydigit', 'mixed', 'int', 'f32',
-                 'zeros']
+                 'zeros', 'micro', 'offset', 'edges', 'edges', 'narrow-int', 'narrow-int', 'f16']
+NARROW = [np.int8, np.uint8, np.int16, np.uint16, np.int32, np.uint32]
 LABELS = ['a label with spaces', '123', '123 4', '12 0.5000', '3 0.0100', '', 'a,b', '1.5,2.5', '# hash', 'x#y',
           ' lead', 'trail ', 'two  spaces', '-1.5', '0.01', 'nan', 'm1', 'M1', 'label', 'dt=0.01 npts=100',
           'ChiChi_EW (scaled, 0.5g) #3']
 _LABEL_CHARS = ''.join(c for c in string.printable if c not in '\t\n\r\x0b\x0c')
-M_LIST = [1, 1.0, 2, 2.0, 0.5, -1, -1.0, 9.81]
+M_LIST = [1, 1.0, 2, 2.0, 0.5, -1, -1.0, 9.81, 0, 0.0, -0.0, np.float64(2.5), np.float32(9.81), np.int64(3), 1e-12, 1e12,
+          -1e-9, 1e9]
 
 
 def gen_dt(rng):
-    """Returns (dt, class). Every dt is inside [1e-4, 100]."""
-    k = int(rng.choice(8, p=[.14, .16, .22, .16, .12, .08, .06, .06]))
+    """Returns (dt, class). Every dt is inside the judged range [1e-4, 1000]."""
+    k = int(rng.choice(10, p=[.13, .14, .20, .13, .10, .07, .05, .05, .08, .05]))
     if k == 0:
         return DT_LIST[int(rng.integers(len(DT_LIST)))], 'list'
     if k == 1:   # 4-decimal steps over six decades
@@ -587,7 +852,7 @@ def gen_dt(rng):
             kk += int(rng.integers(1, 10))
         return kk / 10000.0, 'dec4>=1,5+digits'
     if k == 3:   # raw log-uniform (more than 4 decimals -> rounding)
-        return float(min(100.0, max(1e-4, 10.0 ** rng.uniform(-4, 2)))), 'log'
+        return float(min(1000.0, max(1e-4, 10.0 ** rng.uniform(-4, 3)))), 'log'
     if k == 4:   # half-way points of the 4th decimal (inexact in binary) and their neighbours
         kk = int(round(10.0 ** rng.uniform(0.4, 6)))
         d = (kk + 0.5) / 10000.0 + float(rng.choice([0.0, 0.0, 1e-9, -1e-9]))
@@ -596,9 +861,23 @@ def gen_dt(rng):
         kk = int(rng.integers(1, 1000000))
         return np.float64(kk / 10000.0), 'np.float64'
     if k == 6:
-        d = np.float32(10.0 ** rng.uniform(-3.9, 1.99))
+        d = np.float32(10.0 ** rng.uniform(-3.9, 2.99))
         return d, 'np.float32'
-    return int(rng.integers(1, 101)), 'int'
+    if k == 7:
+        return int(rng.integers(1, 1001)), 'int'
+    if k == 8:   # above 100 s: 7-8 significant digits in the header
+        if rng.random() < 0.3:
+            return [1000, 1000.0, 123.4567, 999.9999, 100.0001, 500.5, 101][int(rng.integers(7))], 'dt>100'
+        return int(rng.integers(1000001, 10000000)) / 10000.0, 'dt>100'
+    # exact ties of the 4th decimal: odd multiples of 1/32 (5 decimals ending in 5), optionally plus whole seconds
+    return (2 * int(rng.integers(0, 16)) + 1) / 32.0 + int(rng.integers(0, 100)) * int(rng.random() < 0.5), 'tie4-dyadic'
+
+
+def gen_dt_out_of_domain(rng):
+    """Steps the format cannot represent (below 1e-4 s) or beyond the judged range: driven, counted, never judged."""
+    if rng.random() < 0.7:
+        return float(10.0 ** rng.uniform(-9, -4.1)), 'dt<1e-4(not judged)'
+    return float(10.0 ** rng.uniform(3.01, 4)), 'dt>1000(not judged)'
 
 
 def gen_values(rng, n, cls=None):
@@ -643,6 +922,39 @@ def gen_values(rng, n, cls=None):
         if rng.random() < 0.5:
             x[rng.random(size=n) < 0.5] = -0.0
         return x, cls
+    if cls == 'micro':       # micro-amplitude record: every sample far below the 6th decimal
+        return sign * 10.0 ** rng.uniform(-12, -8, size=n), cls
+    if cls == 'offset':      # small signal on a large offset
+        off = float(rng.choice([1e3, -1e3, 1e6, -1e6, 1e9, 123456.0]))
+        return off + rng.normal(size=n) * 10.0 ** rng.uniform(-6, -3), cls
+    if cls == 'edges':       # extreme at the first / last sample, plateaus at the ends, ending right after a sign change
+        x = rng.normal(size=n) * 10.0 ** rng.uniform(-2, 3)
+        how = int(rng.integers(0, 5))
+        big = 10.0 * (np.max(np.abs(x)) + 1.0) * float(rng.choice([-1.0, 1.0]))
+        if how == 0:
+            x[0] = big
+        elif how == 1:
+            x[-1] = big
+        elif how == 2:
+            kk = int(rng.integers(1, max(2, n // 3 + 1)))
+            x[:kk] = x[kk - 1]
+            x[n - kk:] = x[n - kk]
+        elif how == 3 and n >= 2:
+            x[-2] = abs(x[-2]) + 1.0
+            x[-1] = -1e-6 * float(rng.integers(1, 10))
+        else:
+            x[0] = big
+            x[-1] = -big
+        return x, cls + '-%d' % how
+    if cls == 'narrow-int':  # narrow and unsigned integer dtypes using the whole range of the type
+        t = NARROW[int(rng.integers(len(NARROW)))]
+        ii = np.iinfo(t)
+        x = rng.integers(ii.min, ii.max, size=n, endpoint=True, dtype=np.int64).astype(t)
+        if n >= 2:
+            x[0], x[-1] = ii.max, ii.min
+        return x, np.dtype(t).name
+    if cls == 'f16':
+        return np.clip(rng.normal(size=n) * 10.0 ** rng.uniform(-2, 3), -6e4, 6e4).astype(np.float16), cls
     raise ValueError(cls)
 
 
@@ -672,21 +984,35 @@ LEN_CHOICES = [1, 2, 3, 5, 10, 30, 100, 300, 1000, 2000]
 LEN_P = [.09, .06, .05, .10, .15, .15, .16, .10, .09, .05]
 
 
+LAYOUTS = [['strided'], ['reversed'], ['readonly'], ['strided', 'reversed'], ['strided', 'readonly'],
+           ['reversed', 'readonly']]
+
+
 def gen_save(rng, n=None, maxlen=2000):
     """One save op (driver format) with its classes."""
     if n is None:
-        n = int(rng.choice(LEN_CHOICES, p=LEN_P))
-        while n > maxlen:
+        if rng.random() < 0.15:                  # around every power of two
+            n = min(maxlen, 2 ** int(rng.integers(2, 12)) + int(rng.integers(-1, 2)))
+        else:
             n = int(rng.choice(LEN_CHOICES, p=LEN_P))
-        if n >= 10 and rng.random() < 0.5:     # spread lengths between the anchors
-            n = int(rng.integers(n // 2 + 1, n + 1))
+            while n > maxlen:
+                n = int(rng.choice(LEN_CHOICES, p=LEN_P))
+            if n >= 10 and rng.random() < 0.5:     # spread lengths between the anchors
+                n = int(rng.integers(n // 2 + 1, n + 1))
     vals, vcls = gen_values(rng, n)
     dt, dcls = gen_dt(rng)
     dtv, dtt = _describe_dt(dt)
     label, deflabel, lcls = gen_label(rng)
+    lay = LAYOUTS[int(rng.integers(len(LAYOUTS)))] if rng.random() < 0.2 else None
     if rng.random() < 0.5:
         op = {'op': 'save_signal', 'sigtype': 'AccSignal' if rng.random() < 0.6 else 'Signal', 'values': vals,
-              'container': 'ndarray', 'dt': dtv, 'dt_type': dtt, 'label': label, 'default_label': deflabel}
+              'container': 'ndarray', 'dt': dtv, 'dt_type': dtt, 'label': label, 'default_label': deflabel,
+              'kw': bool(rng.random() < 0.1)}
+        if lay:
+            op['ctor_layout'] = lay                # what the constructor is given
+            if 'readonly' in lay and rng.random() < 0.7:
+                op['layout'] = ['readonly']        # and the object's own array made read-only before saving
+            vcls += '+view'
     else:
         cont = 'ndarray'
         r = rng.random()
@@ -694,10 +1020,20 @@ def gen_save(rng, n=None, maxlen=2000):
             cont = 'list'
         elif r < 0.25:
             cont = 'tuple'
-        if cont != 'ndarray' and vals.dtype == np.float32:
-            vals = vals.astype(float)
         op = {'op': 'save_values_and_dt', 'values': vals, 'container': cont, 'dt': dtv, 'dt_type': dtt, 'label': label,
               'kw': bool(rng.random() < 0.2)}
+        if cont != 'ndarray':
+            if vals.dtype.kind == 'f' and vals.dtype != np.float64:
+                op['values'] = vals = vals.astype(float)
+            raw = vals.tolist()                    # Python floats (float arrays) or Python ints (integer arrays)
+            if vals.dtype.kind == 'f' and rng.random() < 0.4:      # mixed list: some whole numbers as Python ints
+                raw = [int(round(v)) if (i % 3 == 0 and abs(v) < 1e15) else v for i, v in enumerate(raw)]
+                op['values'] = vals = np.array([float(v) for v in raw])
+                vcls += '+mixed-int/float'
+            op['raw'] = raw
+        elif lay:
+            op['layout'] = lay
+            vcls += '+view'
     info = {'values': vcls, 'dt': dcls, 'label': lcls, 'n': n}
     op['_info'] = info
     return op, info
@@ -716,33 +1052,53 @@ def gen_twin(rng, a):
         kk = int(rng.integers(1, 99999))
     elif d < 99.9999:
         kk = int(rng.integers(100000, 999999))
+    elif d < 999.9999:
+        kk = int(rng.integers(1000000, 9999999))
     else:
-        kk = 1000000
+        kk = 10000000
     b['dt'], b['dt_type'] = kk / 10000.0, 'float'
+    for k in ('raw', 'layout', 'ctor_layout', 'same_object_as_prev_save'):
+        a.pop(k, None)
+        b.pop(k, None)
+    if a.get('container') in ('list', 'tuple'):
+        a['raw'], b['raw'] = a['values'].tolist(), b['values'].tolist()
     b['_info'] = dict(a['_info'], dt='twin-same-width')
     return b
 
 
+def _pk(rng, name, value, p_kw=0.5):
+    """One option either positionally or by keyword."""
+    return ({'kwargs': {name: value}} if rng.random() < p_kw else {'args': [value]})
+
+
 def all_loads(rng):
-    """The loader calls of a one-shot round trip: every entry point, every astype, label both ways, m."""
+    """The loader calls of a one-shot round trip: every entry point, every astype (positional and keyword), label both
+    ways, m (positional, keyword, default; boundary values 0 and 1), ffp positional and by keyword."""
     m1, m2 = gen_m(rng), gen_m(rng)
     ops = [{'op': 'load_values_and_dt'},
            {'op': 'load_signal'},
-           {'op': 'load_signal', 'kwargs': {'astype': 'signal'}},
-           {'op': 'load_signal', 'args': ['acc_sig']} if rng.random() < 0.5 else {'op': 'load_signal', 'kwargs': {'astype': 'acc_sig'}},
-           {'op': 'load_sig', 'kwargs': {'m': m1}} if rng.random() < 0.6 else {'op': 'load_sig', 'args': [m1]},
-           {'op': 'load_asig', 'kwargs': {'load_label': True, 'm': m2}} if rng.random() < 0.7 else {'op': 'load_asig', 'args': [True, m2]}]
+           dict({'op': 'load_signal'}, **_pk(rng, 'astype', 'signal')),
+           dict({'op': 'load_signal'}, **_pk(rng, 'astype', 'acc_sig')),
+           dict({'op': 'load_sig'}, **_pk(rng, 'm', m1, 0.6)),
+           {'op': 'load_asig', 'kwargs': {'load_label': True, 'm': m2}} if rng.random() < 0.6 else
+           ({'op': 'load_asig', 'args': [True, m2]} if rng.random() < 0.6 else {'op': 'load_asig', 'args': [True], 'kwargs': {'m': m2}})]
     r = rng.random()
-    if r < 0.3:
+    if r < 0.2:
         ops.append({'op': 'load_asig'})
+    elif r < 0.4:
+        ops.append({'op': 'load_asig', 'kwargs': {'load_label': False, 'm': gen_m(rng)}} if rng.random() < 0.5 else
+                   {'op': 'load_asig', 'args': [False, gen_m(rng)]})
     elif r < 0.5:
-        ops.append({'op': 'load_asig', 'kwargs': {'load_label': False, 'm': gen_m(rng)}})
+        ops.append({'op': 'load_asig', 'kwargs': {'m': gen_m(rng)}})
     elif r < 0.65:
-        ops.append({'op': 'load_asig', 'kwargs': {'load_label': True}})
+        ops.append(dict({'op': 'load_asig'}, **_pk(rng, 'load_label', True)))
     elif r < 0.8:
         ops.append({'op': 'load_sig'})
     else:
-        ops.append({'op': 'load_signal', 'kwargs': {'astype': 'sig'}})
+        ops.append(dict({'op': 'load_signal'}, **_pk(rng, 'astype', 'sig')))
+    for o in ops:
+        if rng.random() < 0.1:
+            o['ffp_kw'] = True
     order = rng.permutation(len(ops))
     return [ops[i] for i in order]
 
@@ -768,25 +1124,35 @@ def _digest(ops):
     for op in ops:
         parts.append(op['op'])
         parts.append(op.get('pid_local', 0))
-        if op.get('from_last_load'):
-            parts.append('resave-loaded')
-        elif 'values' in op:
-            parts += [op['values'], repr(op['dt']), op['dt_type'], op['label'], op.get('sigtype'), op.get('container')]
+        for k in ('from_last_load', 'from_held', 'same_object_as_prev_save', 'kind', 'ffp_kw', 'kw', 'out_of_domain'):
+            if op.get(k):
+                parts.append('%s=%r' % (k, op[k]))
+        if 'values' in op:
+            parts += [op['values'], repr(op.get('dt')), op.get('dt_type'), op.get('label'), op.get('sigtype'),
+                      op.get('container'), repr(op.get('layout')), repr(op.get('ctor_layout')),
+                      repr([type(x).__name__[0] for x in op['raw']]) if op.get('raw') is not None else None]
         else:
-            parts += [repr(op.get('args')), repr(sorted((op.get('kwargs') or {}).items()))]
+            parts += [repr(op.get('args')), repr(sorted((op.get('kwargs') or {}).items())), repr(op.get('index')),
+                      repr(op.get('new')), op.get('label')]
     return core.digest(*parts)
 
 
 # ------------------------------------------------------------------------------------------- workload
-def _run_case(eqsig, ctx, tmpd, ops, cls, info, counter):
-    """Execute one block of ops on fresh paths, register it, clean up."""
+def _run_case(eqsig, ctx, tmpd, ops, cls, info, counter, recipe=None):
+    """Execute one block of ops on fresh paths, register it, clean up. recipe: how the driver regenerates the block."""
     paths = {}
-    for op in ops:
-        pl = op.get('pid_local', 0)
-        if pl not in paths:
-            counter[0] += 1
-            paths[pl] = os.path.join(tmpd, 'c%d_%d.txt' % (counter[0], pl))
-        execute(eqsig, ctx, op, paths[pl])
+    RECIPE.clear()
+    if recipe:
+        RECIPE.update(recipe)
+    try:
+        for op in ops:
+            pl = op.get('pid_local', 0)
+            if pl not in paths:
+                counter[0] += 1
+                paths[pl] = os.path.join(tmpd, 'c%d_%d.txt' % (counter[0], pl))
+            execute(eqsig, ctx, op, paths[pl])
+    finally:
+        RECIPE.clear()
     saves = [o for o in ops if 'values' in o]
     ctx.case(_digest(ops), nontrivial=_nontrivial(saves), cls=cls,
              sample={'class': cls, 'calls': [o['op'] for o in ops][:12], 'first_save_classes': info,
@@ -804,7 +1170,14 @@ def _run_case(eqsig, ctx, tmpd, ops, cls, info, counter):
 
 def case_oneshot(rng):
     sv, info = gen_save(rng)
-    return [sv] + all_loads(rng), info
+    ops = [sv] + all_loads(rng)
+    if rng.random() < 0.02:      # a time step outside the judged range: driven and counted, no verdict
+        d, dcls = gen_dt_out_of_domain(rng)
+        sv['dt'], sv['dt_type'] = d, 'float'
+        info['dt'] = dcls
+        for o in ops:
+            o['out_of_domain'] = True
+    return ops, info
 
 
 def case_history(rng, npaths=1):
@@ -829,17 +1202,34 @@ def case_history(rng, npaths=1):
         if info0 is None:
             info0 = info
         ops.append(sv)
-        if rng.random() < 0.25:       # same-size overwrite: save A, read, save twin B, (read below)
+        last_sv = sv
+        r_tw = rng.random()
+        if r_tw < 0.25:               # same-size overwrite: save A, read, save twin B, (read below)
             tw = gen_twin(rng, sv)
             for ld in some_loads(rng, int(rng.integers(1, 3))):
                 ld['pid_local'] = pl
                 ops.append(ld)
             ops.append(tw)
+            last_sv = tw
+        elif r_tw < 0.45 and npaths > 1:
+            # two different records of the same shape on two paths, read back to back; the first result is still held
+            # (and re-checked by the monitor) when the second and third loads return
+            po = (pl + 1) % npaths
+            tw = gen_twin(rng, sv)
+            tw['pid_local'] = po
+            last_n[po] = len(tw['values'])
+            ops.append(tw)
+            for q in (pl, po, pl):
+                for ld in some_loads(rng, 1):
+                    ld['pid_local'] = q
+                    ops.append(ld)
+            last_sv = tw
         if rng.random() < 0.12:       # overwritten again before anything is read
             sv2, _ = gen_save(rng, maxlen=300)
             sv2['pid_local'] = pl
             last_n[pl] = len(sv2['values'])
             ops.append(sv2)
+            last_sv = sv2
         if npaths > 1 and rng.random() < 0.5:
             # read ANOTHER live path first (stale/global state would show)
             others = [p for p in last_n if p != pl]
@@ -851,12 +1241,72 @@ def case_history(rng, npaths=1):
         for ld in some_loads(rng, int(rng.integers(1, 5))):
             ld['pid_local'] = pl
             ops.append(ld)
+        if rng.random() < 0.15:       # the SAME argument object (array / Signal) is saved a second time, here or elsewhere
+            again = dict(last_sv, same_object_as_prev_save=True)
+            again['pid_local'] = int(rng.integers(npaths)) if npaths > 1 else pl
+            last_n[again['pid_local']] = len(again['values'])
+            ops.append(again)
+            for ld in some_loads(rng, int(rng.integers(1, 3))):
+                ld['pid_local'] = again['pid_local']
+                ops.append(ld)
+            pl = again['pid_local']
         if rng.random() < 0.15:       # the loaded object itself is saved again (same path) and read back
             ops.append({'op': 'save_signal', 'from_last_load': True, 'pid_local': pl})
             for ld in some_loads(rng, int(rng.integers(1, 4))):
                 ld['pid_local'] = pl
                 ops.append(ld)
     return ops, info0
+
+
+def case_objhist(case_seed):
+    """One Signal/AccSignal object saved again and again between public mutations: same/shorter/longer reset_values,
+    in-place edits of obj.values, label changes, reads of cached quantities; by save_signal(obj) and by
+    save_values_and_dt(obj.values, obj.dt, obj.label). Every load is judged against the object's values at the entry of
+    the save that wrote the file. Deterministic in case_seed (the witness carries it)."""
+    rng = np.random.default_rng([16, 779, int(case_seed)])
+    n = int(rng.choice([1, 2, 3, 4, 7, 8, 9, 31, 64, 100, 257]))
+    vals, vcls = gen_values(rng, n)
+    dt, dcls = gen_dt(rng)
+    dtv, dtt = _describe_dt(dt)
+    label, deflabel, lcls = gen_label(rng)
+    info = {'values': vcls, 'dt': dcls, 'label': lcls, 'n': n}
+    ops = [{'op': 'new_signal', 'sigtype': 'AccSignal' if rng.random() < 0.6 else 'Signal', 'values': vals,
+            'container': 'ndarray', 'dt': dtv, 'dt_type': dtt, 'label': label, 'default_label': deflabel, '_info': info}]
+    npaths = int(rng.integers(1, 3))
+    for r in range(int(rng.integers(3, 7))):
+        pl = int(rng.integers(npaths))
+        if rng.random() < 0.6:
+            ops.append({'op': 'save_signal', 'from_held': True, 'pid_local': pl})
+        else:
+            ops.append({'op': 'save_values_and_dt', 'from_held': True, 'pid_local': pl})
+        for ld in some_loads(rng, int(rng.integers(1, 4))):
+            ld['pid_local'] = pl
+            ops.append(ld)
+        k = int(rng.integers(0, 7))
+        if k == 0:
+            ops.append({'op': 'mutate', 'kind': 'reset_values', 'values': gen_values(rng, n)[0], 'container': 'ndarray'})
+        elif k == 1:
+            n = max(1, n - int(rng.integers(1, max(2, n))))
+            ops.append({'op': 'mutate', 'kind': 'reset_values', 'values': gen_values(rng, n)[0],
+                        'container': 'list' if rng.random() < 0.3 else 'ndarray'})
+        elif k == 2:
+            n = n + int(rng.integers(1, 40))
+            ops.append({'op': 'mutate', 'kind': 'reset_values', 'values': gen_values(rng, n)[0], 'container': 'ndarray'})
+        elif k == 3:
+            idx = sorted(set(int(i) for i in rng.integers(0, n, size=min(n, 3))) | {0, n - 1})
+            ops.append({'op': 'mutate', 'kind': 'inplace', 'index': idx,
+                        'new': [float(np.round(x, 3)) for x in rng.normal(size=len(idx)) * 50]})
+        elif k == 4:
+            ops.append({'op': 'mutate', 'kind': 'label', 'label': gen_label(rng)[0]})
+        elif k == 5:
+            ops.append({'op': 'mutate', 'kind': 'read-cache'})
+        # k == 6: saved again unchanged
+    pl = int(rng.integers(npaths))
+    ops.append({'op': 'save_signal', 'from_held': True, 'pid_local': pl})
+    for ld in all_loads(rng):
+        ld['pid_local'] = pl
+        ops.append(ld)
+    return ops, info
 
 
 SWEEP_LOADS = [{'op': 'load_values_and_dt'}, {'op': 'load_signal'}, {'op': 'load_sig', 'kwargs': {'m': 2.0}},
@@ -945,18 +1395,14 @@ def run_long(eqsig, ctx, tmpd, counter):
     for idx in range(len(plan)):
         if (idx + off) % ctx.nshards != ctx.shard:
             continue
-        RECIPE.update(tier=ctx.tier, seed=int(ctx.seed), idx=idx)
-        try:
-            ops, info = case_long(ctx.tier, ctx.seed, idx)
-            _run_case(eqsig, ctx, tmpd, ops, 'long(npts=%s)' % ('2^16+-1' if abs(plan[idx][0] - 65536) <= 1 else
-                                                               ('>2^16' if plan[idx][0] > 65536 else '<2^16')),
-                      info, counter)
-        finally:
-            RECIPE.clear()
+        ops, info = case_long(ctx.tier, ctx.seed, idx)
+        _run_case(eqsig, ctx, tmpd, ops, 'long(npts=%s)' % ('2^16+-1' if abs(plan[idx][0] - 65536) <= 1 else
+                                                           ('>2^16' if plan[idx][0] > 65536 else '<2^16')),
+                  info, counter, recipe={'kind': 'long', 'tier': ctx.tier, 'seed': int(ctx.seed), 'idx': idx})
 
 
-N_CASES = {'quick': {'oneshot': 6000, 'history': 2400, 'interleaved': 800},
-           'thorough': {'oneshot': 90000, 'history': 36000, 'interleaved': 12000}}
+N_CASES = {'quick': {'oneshot': 5200, 'history': 1800, 'interleaved': 500, 'objhist': 800},
+           'thorough': {'oneshot': 90000, 'history': 32000, 'interleaved': 12000, 'objhist': 12000}}
 
 
 def run_shard(ctx):
@@ -967,16 +1413,21 @@ def run_shard(ctx):
     counter = [0]
     try:
         plan = N_CASES[ctx.tier]
-        for kind in ('oneshot', 'history', 'interleaved'):
+        for kind in ('oneshot', 'history', 'interleaved', 'objhist'):
             n = plan[kind] // ctx.nshards + 1
             for c in range(n):
+                recipe = None
                 if kind == 'oneshot':
                     ops, info = case_oneshot(rng)
                 elif kind == 'history':
                     ops, info = case_history(rng, 1)
-                else:
+                elif kind == 'interleaved':
                     ops, info = case_history(rng, int(rng.integers(2, 4)))
-                _run_case(eqsig, ctx, tmpd, ops, kind, info, counter)
+                else:
+                    cs = int(rng.integers(0, 2 ** 62))
+                    ops, info = case_objhist(cs)
+                    recipe = {'kind': 'objhist', 'case_seed': cs, 'digest': _digest(ops)}
+                _run_case(eqsig, ctx, tmpd, ops, kind, info, counter, recipe)
                 if c % 64 == 0 and ctx.out_of_time():
                     ctx.observe('random-part-cut-by-budget')
                     break
@@ -1003,8 +1454,13 @@ def replay(w):
             ctx = core.Ctx(PROP_ID, 'quick', 0, 0, 1)      # only the witness block is judged by the replay
             install(ctx)
         ops = w['ops']
-        if w.get('recipe'):          # long record: regenerate the block from the driver's deterministic recipe
-            ops = case_long(w['recipe']['tier'], w['recipe']['seed'], w['recipe']['idx'])[0]
+        rc = w.get('recipe') or {}
+        if rc.get('kind') == 'objhist':      # object history: regenerate the driver's block (mutators included)
+            regen = case_objhist(rc['case_seed'])[0]
+            if _digest(regen) == rc.get('digest'):
+                ops = regen                  # else: the generator changed since; fall back to the recorded calls
+        elif rc:                             # long record: regenerate the block from the driver's deterministic recipe
+            ops = case_long(rc['tier'], rc['seed'], rc['idx'])[0]
         for op in ops:
             path = os.path.join(tmpd, 'p%s.txt' % op.get('pid', op.get('pid_local', 0)))
             execute(eqsig, ctx, op, path)
